@@ -57,6 +57,7 @@ class FuncV:
     self_obj: Any = None
     via: Optional[Obj] = None
     defcls: Optional[str] = None  # class that defines it (for super())
+    acc_cls: Optional[str] = None  # class through which it was looked up (C.method)
 
 
 @dataclass(eq=False)
@@ -1336,8 +1337,8 @@ class Interp:
             m = self.prog.lookup_method(o.fq, attr)
             if m is not None:
                 if _is_classmethod(m):
-                    return FuncV(m, ClassV(o.fq, via=o.via), via=o.via, defcls=m.cls)
-                return FuncV(m, None, via=o.via, defcls=m.cls)
+                    return FuncV(m, ClassV(o.fq, via=o.via), via=o.via, defcls=m.cls, acc_cls=o.fq)
+                return FuncV(m, None, via=o.via, defcls=m.cls, acc_cls=o.fq)
             ca, owner = self.prog.lookup_class_attr(o.fq, attr)
             if ca is not None:
                 return self.eval_class_attr(ca, owner)
